@@ -32,8 +32,10 @@ type S struct {
 	In // embedded
 }
 
-func (s S) Get() int  { return s.A }
-func (s *S) Ptr() int { return s.A + 1 }
+func (s S) Get() int           { return s.A }
+func (s *S) Ptr() int          { return s.A + 1 }
+func (s S) Fail() (int, error) { return s.A, errSentinel } // (T, error) method that fails
+func (s S) Ok() (int, error)   { return s.A, nil }         // (T, error) method that succeeds
 
 var errSentinel = errors.New("SENTINEL")
 
@@ -252,11 +254,18 @@ func canonGo(v any) string {
 		}
 		return fmt.Sprintf("array:%s[%s]", rv.Type(), strings.Join(parts, " "))
 	case reflect.Map:
-		var parts []string
+		keys := map[string]reflect.Value{}
+		var ks []string
 		for _, k := range rv.MapKeys() {
-			parts = append(parts, hexOf(fmt.Sprint(k.Interface()))+"="+canonGo(rv.MapIndex(k).Interface()))
+			s := fmt.Sprint(k.Interface())
+			keys[s] = k
+			ks = append(ks, s)
 		}
-		sort.Strings(parts)
+		sort.Strings(ks) // by key (as the model does), not by the rendered entry
+		var parts []string
+		for _, s := range ks {
+			parts = append(parts, hexOf(s)+"="+canonGo(rv.MapIndex(keys[s]).Interface()))
+		}
 		return fmt.Sprintf("map:%s{%s}", rv.Type(), strings.Join(parts, " "))
 	case reflect.Struct:
 		return "struct:" + rv.Type().Name()
@@ -353,8 +362,28 @@ func valFromJSON(j any) val {
 		}
 		panic("valFromJSON: unsupported array type " + ty)
 	}
-	if _, ok := m["st"].(string); ok {
-		panic("valFromJSON: struct values cannot be rebuilt from JSON; use native builders")
+	if ty, ok := m["st"].(string); ok {
+		// limited rebuild: S by value with nil P (the only struct shape stored in cases), In
+		get := func(name string) any {
+			fs, _ := m["fs"].([]any)
+			for _, f := range fs {
+				p, _ := f.([]any)
+				if len(p) == 4 && p[0] == name {
+					return p[3]
+				}
+			}
+			return nil
+		}
+		switch ty {
+		case "S":
+			a, _ := valFromJSON(get("A")).g.(int)
+			b, _ := valFromJSON(get("B")).g.(string)
+			return vS(a, b, nil)
+		case "In":
+			z, _ := valFromJSON(get("Z")).g.(int)
+			return vIn(z)
+		}
+		panic("valFromJSON: unsupported struct type " + ty)
 	}
 	return vNil()
 }
